@@ -1,7 +1,8 @@
 ------------------------------ MODULE TraceC06 ------------------------------
 (* code -> spec for C06: validates recorded end-to-end solves and L2           *)
 (* projections against the exact oracle of module Galerkin (mode L).           *)
-(*   "Solve"    problem, elem, dim, S, poly, loc, comp, x, err                  *)
+(*   "Solve"    problem, bc, dform (form of the Dirichlet set), method, elem,   *)
+(*              dim, S, poly, loc, comp, x, err                                 *)
 (*   "Project"  elem, region ("mesh" | "cells" | "facets"), y0, y1, I, edofs,   *)
 (*              cells, err                                                      *)
 EXTENDS Galerkin
@@ -18,7 +19,8 @@ Eval(e) ==
          IF e.err # "" THEN [cl |-> [NoUnexpectedError |-> FALSE], info |-> {}]
          ELSE IF ~SolveWF(e) THEN [cl |-> [NoUnexpectedError |-> TRUE, SolveWellFormed |-> FALSE], info |-> {}]
          ELSE [cl |-> [NoUnexpectedError |-> TRUE, SolveWellFormed |-> TRUE, SolutionIsInterpolant |-> SolutionIsInterpolant(e)],
-               info |-> {"Info_problem_" \o e.problem, "Info_bc_" \o e.bc}
+               info |-> {"Info_problem_" \o e.problem, "Info_bc_" \o e.bc, "Info_dirichlet_form_" \o e.dform,
+                         "Info_method_" \o e.method}
                         \cup (IF \E k \in DOMAIN e.poly : PolyDeg(e.poly[k]) >= 2 THEN {"Info_DegreeAtLeast2"} ELSE {})]
     [] e.a = "Project" ->
          IF e.err # "" THEN [cl |-> [NoUnexpectedError |-> FALSE], info |-> {}]
